@@ -32,6 +32,10 @@ CLAIMED = {
    note='Reals not floats; log/exp uninterpreted with ground axiom instances; torch.distributions validation off (domain constraints instead); n and grid size bounded as stated in the evidence; soft (temperature) skygrid outside the claim.',
    technique='symbolic execution of torchtree tensor code (SymTensor) + SMT (z3/cvc5, QF_UFNRA) with solver-certified path-region coverage'),
 }
+CLAIMED['C10'] = dict(level=MC, ref='DESIGN.md §4 C10',
+   text='Two-run relational symbolic execution: every listed callable model (coalescents, GMRF, CTMC scale, compound gamma-Dirichlet tree prior, Distribution wrapper, JointDistributionModel, tree likelihood with unrooted / strict / per-branch clock x constant / invariant / Weibull x JC69 / real HKY with a functional eigh stub) is built from JSON and evaluated with a subset of its parameters batched [2] (distinct symbols per sample) and, on freshly built copies, with each slice alone; equality per sample index is decided for all parameter values (identical expressions close syntactically, differences go to the solver and are replayed on plain tensors). A batched evaluation that raises is accepted; a solver vacuity guard shows the two samples can differ. Subsets: all / each-one-batched / each-one-unbatched (quick), every subset (thorough).',
+   note='Sample shape [2] only ([S,K] outside); n = 3 taxa; site models and node-height transforms are covered batched in C05/C06, BDSK in C09; reals not floats.',
+   technique=TECH_A + '; relational (batched vs per-slice) encoding with distinct symbols per sample')
 CLAIMED['C11'] = dict(level=MC, ref='DESIGN.md §4 C11',
    text='Two composite model graphs built from JSON (tree likelihood with ratio-parameterised time tree, strict clock, HKY, Weibull+invariant site model, constant coalescent on an Exp-transformed parameter, a view parameter, a prior and a variational Distribution, joint; and a GMRF / skygrid / MG94 graph on a concatenated + transformed field) are driven through enumerated histories of update operations (direct assignment, assignment through view / concatenation / transformed parameter, in-place write + change notification, rsample of a Distribution, operator step + reject). Every assignment writes fresh symbols; after each operation every model value and derived tensor must be the same expression as that of a freshly built copy holding the same symbols. Identical hash-consed expressions close a goal syntactically; any difference is a solver query whose model is replayed on the real models (real HKY) before being reported; a solver vacuity guard per step shows the update can change an observed value. An exception during any update is a violation.',
    note='Histories of length <= 2 quick / 3 thorough (sampled triples); substitution_model.p_t is an uninterpreted function of (branch argument, kappa, frequencies); optimiser steps are modelled as in-place write + fire_parameter_changed (Optimizer._run itself is not executed); 3 taxa.',
